@@ -240,6 +240,7 @@ type VC struct {
 	infos     []assertInfo
 	defOf     map[int]string
 	mu        sync.Mutex
+	seenAssert map[string]bool
 }
 
 type WatchTerm struct {
@@ -293,7 +294,15 @@ func (vc *VC) Assert(t Term) {
 		// inside a quantifier body terms mention bound variables: side facts are dropped
 		return
 	}
-	vc.asserts = append(vc.asserts, "(assert "+t.S+")")
+	a := "(assert " + t.S + ")"
+	if vc.seenAssert == nil {
+		vc.seenAssert = map[string]bool{}
+	}
+	if vc.seenAssert[a] {
+		return
+	}
+	vc.seenAssert[a] = true
+	vc.asserts = append(vc.asserts, a)
 }
 
 func (vc *VC) Watch(name string, t Term) {
